@@ -2,8 +2,8 @@
 # import_seeded.sh <PID> : copy the agent's SEEDED/m1,m2 into /verif/seeded/<PID>-m1, -m2 with a skeleton meta.json
 set -e
 P=$1
-for m in m1 m2; do
-  src=/tmp/seedwork/wt-$P/SEEDED/$m
+for m in m1 m2 m3 m4; do
+  src=${SEEDROOT:-/tmp/seedwork}/wt-$P/SEEDED/$m
   [ -d "$src" ] || continue
   dst=/verif/seeded/$P-$m
   mkdir -p $dst
@@ -11,7 +11,8 @@ for m in m1 m2; do
   cp $src/demo.py $dst/demo.py
   [ -f $src/notes.md ] && cp $src/notes.md $dst/notes.md
   # demos written for the agent's worktree: make the path neutral (run with cwd = a worktree root, PYTHONPATH set)
-  sed -i "s#/tmp/seedwork/wt-$P#.#g" $dst/demo.py
+  sed -i "s#${SEEDROOT:-/tmp/seedwork}/wt-$P#.#g" $dst/demo.py
+  sed -i 's#startswith("\./")#startswith(os.path.realpath(os.getcwd()) + "/")#; s#startswith("\.")#startswith(os.path.realpath(os.getcwd()))#' $dst/demo.py
   if [ ! -f $dst/meta.json ]; then
     /venv/bin/python - "$P" "$m" "$dst" <<'PY'
 import json,sys
